@@ -112,7 +112,34 @@ def sum_ab(x, y=None):
     return x.__dict__["_a"] + (y.__dict__["_b"] if y is not None else 0) + 1
 
 
+class LoggedCollection:
+    """a user collection (not a generator): asking it for its iterator, its length or its truth value is user code"""
+
+    def __init__(self, name, items):
+        self.name, self.items = name, items
+
+    def __iter__(self):
+        LOG.append(("iter", self.name))         # logged when the iterator is asked for, not when it is first advanced
+        return self._walk()
+
+    def _walk(self):
+        for i, it in enumerate(self.items):
+            LOG.append(("pull", self.name, i))
+            yield it
+
+    def __len__(self):
+        LOG.append(("len", self.name))
+        return len(self.items)
+
+    def __bool__(self):
+        LOG.append(("bool", self.name))
+        return True
+
+
 def logging_domain(v, items):
+    if v.get("domain_form") == "collection":
+        return LoggedCollection(v["name"], items)
+
     def gen():
         for i, it in enumerate(items):
             LOG.append(("pull", v["name"], i))
